@@ -135,7 +135,14 @@ Definition merge_headers (a b : list header) : list header :=
   map (fun k => mkH k (last_vals a k ++ all_vals b k)) (dedup (map lname a ++ map lname b)).
 
 (* ---------- checkRequestInfo ---------- *)
-Definition grace : Z := c03_grace.   (* timeoutCheckGracePeriodMillis, regenerated *)
+(* The grace constant is handed from its declaration to checkRequestInfo, which
+   computes in MILLISECONDS.  TestVerifConsts regenerates the declaration as it
+   stands in the source: its numeric value and the unit that value is counted in
+   (nanoseconds per unit: 10^6 for an untyped "...Millis" number, 1 for a
+   time.Duration).  The window of the model is the declared duration expressed in
+   milliseconds - whatever the code does with the number it was handed. *)
+Definition ns_per_ms : Z := 1000000.
+Definition grace : Z := (c03_grace_value * c03_grace_unit_ns / ns_per_ms)%Z.
 
 Definition check_timeout (e a : option Z) : list errkind :=
   match e, a with
@@ -351,11 +358,31 @@ Definition kind_tag (k : errkind) : bytes :=
   end.
 
 (* (def expected actual) -> (pass (sorted kinds)) : the multiset of discrepancies *)
+(* ---------- the way from the client's report to assert (server_runner.go) ----------
+   The response callback of runTestCasesForServer hands the ClientResponseResult
+   the client reported to results.assert.  Nothing of it is the runner's to change,
+   whoever the client is (the reference client's feedback is recorded on the side,
+   not taken out of the result): the glue is the identity. *)
+Definition handed_to_assert (reference_client : bool) (reported : result) : result := reported.
+
+Definition run_errs (reference_client : bool) (d : def) (e reported : result) : list errkind :=
+  assert_errs d e (handed_to_assert reference_client reported).
+
 Definition run_c03_assert (args : list sx) : sx :=
   or_bad (match args with
   | [d; e; a] =>
     do d <- un_def d; do e <- un_result e; do a <- un_result a;
     let errs := assert_errs d e a in
+    ret (L [sx_bool (is_nil errs); L (map B (sort_bytes (map kind_tag errs)))])
+  | _ => None end).
+
+(* (reference-client def expected reported) -> (pass (sorted kinds)), the outcome
+   recorded by the real runTestCasesForServer for a client that reports [reported] *)
+Definition run_c03_run (args : list sx) : sx :=
+  or_bad (match args with
+  | [ref; d; e; a] =>
+    do ref <- un_bool ref; do d <- un_def d; do e <- un_result e; do a <- un_result a;
+    let errs := run_errs ref d e a in
     ret (L [sx_bool (is_nil errs); L (map B (sort_bytes (map kind_tag errs)))])
   | _ => None end).
 
@@ -378,5 +405,6 @@ Definition run_c03_merge (args : list sx) : sx :=
 
 Definition c03_table : list (bytes * (list sx -> sx)) :=
   [ (bs "c03.assert", run_c03_assert);
+    (bs "c03.run", run_c03_run);
     (bs "c03.canon", run_c03_canon);
     (bs "c03.merge", run_c03_merge) ].
